@@ -188,7 +188,15 @@ impl<'a> World<'a> {
                 // not Running with this pid before, written by an operation that failed for this very service,
                 // is not excused by the process having died in the middle of the invocation
                 let failed_here = out.per.iter().any(|(_, idx, r)| *idx == e.idx && r.is_err());
-                if !unchanged && failed_here && live.is_none() && !relaunch_failed {
+                // a record the refresh at the start of the invocation made (truthfully, the process was alive then)
+                // is not a record made by the failed operation
+                let recorded_by_refresh = out
+                    .after_refresh
+                    .as_ref()
+                    .map(|v| entries(v))
+                    .and_then(|es| es.get(e.idx).map(|r| r.status == "Running" && r.pid == e.pid))
+                    .unwrap_or(false);
+                if !unchanged && !recorded_by_refresh && failed_here && live.is_none() && !relaunch_failed {
                     self.viol(
                         "failed_operation_newly_records_running",
                         &[("op", op.clone()), ("died_mid_operation", died_mid.into())],
